@@ -6,11 +6,13 @@ from runner import Property, ExecError
 from vlib import cz, clist, cbool
 
 # adds VerifWrapFlight to core/syncx (decorate ResourceManager.singleFlight with a gate)
-OVERLAY = {"core/syncx/verif_hooks.go": "/verif/harness/overlay/syncx/verif_hooks.go"}
+# ... and VerifC07WrapBarrier to core/collection (the same for collection.Cache.barrier)
+OVERLAY = {"core/syncx/verif_hooks.go": "/verif/harness/overlay/syncx/verif_hooks.go",
+           "core/collection/zz_verif_c07.go": "/verif/harness/overlay/collection/zz_verif_c07.go"}
 
-KIND = {0: "GSF", 1: "GLC", 2: "GRM", 3: "GSF", 4: "GSF", 5: "GSF", 6: "GSF", 7: "GSF", 8: "GSF", 9: "GSF"}
+KIND = {0: "GSF", 1: "GLC", 2: "GRM", 3: "GSF", 4: "GSF", 5: "GSF", 6: "GSF", 7: "GSF", 8: "GSF", 9: "GSF", 10: "GSF"}
 KNAME = {0: "sf.DoEx", 1: "lc.Do", 2: "rm.Get", 3: "sf.Do", 4: "collection.Cache.Take", 5: "cachenode.Take",
-         6: "collection.Cache.Del", 7: "cachenode.Del", 8: "cachenode.TakeWithExpire", 9: "cachenode.storefault"}
+         6: "collection.Cache.Del", 7: "cachenode.Del", 8: "cachenode.TakeWithExpire", 9: "cachenode.storefault", 10: "cachenode.corrupt-entry"}
 EK = {"inv": 0, "fs": 1, "fe": 2, "ret": 3, "del": 5, "fault": 6}
 PANIC = -2      # err code: the user function panics (Model.epanic)
 NOTFOUND = 9    # err code: the cache node's not-found error (Check.enotfound)
@@ -25,7 +27,7 @@ def is_cache(case):
 
 def is_node(case):
     """the case talks to a (mini)redis over TCP: a goroutine in [IO wait] may look blocked for a moment"""
-    return any(o[0] in (5, 7, 8, 9) for sc in case.get("scripts", []) for o in sc)
+    return any(o[0] in (5, 7, 8, 9, 10) for sc in case.get("scripts", []) for o in sc)
 
 
 def interleavings(counts):
@@ -107,6 +109,14 @@ class C07(Property):
         # GetResource: X is invoked and stops in front of singleflight; Y completes a whole call; X goes on
         cs.append({"scripts": self._mk_scripts([[(2, 1, 0)], [(2, 1, 0)]]), "sched": [0, 1, 1, 1, 0, 0]})
         cs.append({"scripts": self._mk_scripts([[(2, 1, 0)], [(2, 1, 4)], [(2, 1, 0)]]), "sched": [0, 2, 1, 1, 1, 2, 2, 2, 0, 0]})
+        # collection.Cache: X misses and stops in front of the barrier; Y completes a whole Take; X goes on: the
+        # double check inside the flight finds Y's value, X's loader does not run
+        cs.append({"scripts": self._mk_scripts([[(4, 1, 0)], [(4, 1, 0)]]), "sched": [0, 1, 1, 1, 0, 0]})
+        # cache node: the store goes down while the loader runs (the result cannot be written: logged, still returned)
+        cs.append({"scripts": self._mk_scripts([[(5, 1, 0), (5, 1, 0)], [(9, 1, 0, 1), (9, 1, 0, 0)], [(8, 2, NOTFOUND)]]),
+                   "sched": [0, 2, 1, 0, 2, 1, 0, 0]})
+        # cache node: the stored entry does not unmarshal: dropped and reloaded inside the flight, joiners share the reload
+        cs.append({"scripts": self._mk_scripts([[(5, 1, 0), (10, 1, 0), (5, 1, 0)], [(5, 1, 0)]]), "sched": [0, 0, 0, 0, 1, 0, 1]})
         # LockedCalls: A runs, B queues, A finishes (B runs), C arrives while B runs, D arrives when all is over
         cs.append({"scripts": self._mk_scripts([[(1, 1, 0)], [(1, 1, 0)], [(1, 1, 0)], [(1, 1, 0)]]), "sched": [0, 1, 0, 2, 1, 2, 3, 3]})
         # a panicking leader with a waiter, then a fresh call: every primitive and both cache call sites
@@ -174,8 +184,8 @@ class C07(Property):
             cases.append({"scripts": self._mk_scripts([[(2, k, e)] for k, e in zip(keys, errs(3, [0, 0, 0, 2, PANIC]))]), "sched": sch})
         # the two users of the barrier: three readers of one key
         c3 = [s for s in interleavings([2, 2, 2])]
-        rng.shuffle(c3)
-        for sch in c3[:40 if quick else 90]:
+        # (collection.Cache.Take has three gate-level steps: invoke / enter the barrier after the miss / loader returns)
+        for sch in rm3[60:100] if quick else rm3[600:900]:
             cases.append({"scripts": self._mk_scripts([[(4, 1, e)] for e in errs(3, [0, 0, 0, 2, PANIC])]), "sched": sch})
         rng.shuffle(c3)
         for sch in c3[:25 if quick else 90]:
@@ -220,7 +230,7 @@ class C07(Property):
             for _ in range(rng.choice([1, 2, 2, 3])):
                 key = rng.randint(1, nkeys) + (INST if two and rng.random() < 0.4 else 0)
                 if rng.random() < 0.2:
-                    ops.append((7 if node else 6, key, 0))
+                    ops.append((rng.choice([7, 7, 10]) if node else 6, key, 0))
                 elif node:
                     ops.append((rng.choice([5, 5, 8]), key, rng.choice([0, 0, 0, 0, 2, NOTFOUND, NOTFOUND, WNOTFOUND, PANIC])))
                 elif rng.random() < 0.1 and not any(len(x) > 3 for y in sc for x in y) and not any(len(x) > 3 for x in ops):
@@ -376,7 +386,7 @@ class C07(Property):
         fs.append("keys=%d" % len(set(o[1] % INST for sc in case["scripts"] for o in sc)))
         if any(o[1] >= INST for sc in case["scripts"] for o in sc):
             fs.append("two_instances")
-        if any(o[3] == PANIC and o[0] not in (6, 7, 9) for sc in case["scripts"] for o in sc):
+        if any(o[3] == PANIC and o[0] not in (6, 7, 9, 10) for sc in case["scripts"] for o in sc):
             fs.append("has_panicking_fn")
         if any(e[2] == 3 and e[5] == NOTFOUND for e in obs.get("log", [])):
             fs.append("has_notfound")
